@@ -1,8 +1,350 @@
-//! stub — to be written
-use crate::core::{Acc, Ctx};
-use serde_json::Value;
-pub const RULE: &str = "";
-pub const ASSUMPTIONS: &[&str] = &[];
-pub fn bounds(_quick: bool) -> Value { Value::Null }
-pub fn run(_ctx: &Ctx, _acc: &mut Acc) {}
-pub fn replay(_v: &Value) -> Option<(bool, String)> { None }
+//! C16 — raw frame streams are self-describing; the stream reader fabricates no frame.
+//! Shapes G × E: all frame sequences over a parameter menu, all placements of ≤2(3) garbage strings in the
+//! gaps, every segmentation (single cut; pairs in thorough; 1-byte buffers) of the buffered source.
+use crate::core::{guarded, hex, Acc, Ctx};
+use crate::corpus::ident_pcm;
+use flac_codec::decode::FlacStreamReader;
+use flac_codec::encode::{FlacStreamWriter, Options};
+use serde_json::{json, Value};
+use std::io::{BufRead, Read};
+use vph::refdec;
+
+pub const RULE: &str = "frame parameter menu of 12 (rate: fixed code / kHz / Hz / daHz classes; channels 1,2,3,8; depth 8,12,16,20,24,32; length 1,16,17,40): (A) ALL sequences of 1..3 frames written by FlacStreamWriter — each frame must decode from its own bytes alone in the independent decoder's subset mode and FlacStreamReader must return every frame's samples and parameters exactly, for the unsegmented source, every single cut point and 1-byte buffers; all non-subset rate/depth classes must be refused at write; (B) 6 three-frame sequences × ALL placements of ≤2 (thorough ≤3) garbage strings from {00, FF, FF FF, FF F8, FF F9, FF F8 + CRC-8-valid fake header, the first 5 / 9 bytes of a real frame, 37 sync-free bytes} in the 4 gaps × every single cut point of the source (thorough: + every pair of cuts for ≤1 garbage string) and 1-byte buffers: frames returned Ok must be a subsequence of the written frames in order with exact samples/parameters; when no inserted string contains FF F8/FF F9 every frame must be returned and no error may precede the final end of data";
+pub const ASSUMPTIONS: &[&str] = &["garbage is drawn from a 9-string alphabet; frames from a 12-entry parameter menu with position-identifying PCM"];
+pub fn bounds(quick: bool) -> Value {
+    json!({"clean_sequences": "all of length 1..3 over 12 frame kinds", "garbage_strings_per_stream": if quick { 2 } else { 3 }, "cuts": if quick { "every single cut, 1-byte buffers" } else { "every single cut, every pair of cuts (≤1 garbage string), 1-byte buffers" }})
+}
+
+/// BufRead over a fixed byte string whose fill_buf never crosses a cut point (and serves ≤ chunk bytes if chunk>0)
+pub struct ChunkedBuf<'a> {
+    data: &'a [u8],
+    pos: usize,
+    cuts: Vec<usize>,
+    chunk: usize,
+    eof_polls: u32,
+}
+impl<'a> ChunkedBuf<'a> {
+    pub fn new(data: &'a [u8], cuts: Vec<usize>, chunk: usize) -> Self {
+        ChunkedBuf { data, pos: 0, cuts, chunk, eof_polls: 0 }
+    }
+    fn end(&self) -> usize {
+        let mut end = self.data.len();
+        if self.chunk > 0 {
+            end = end.min(self.pos + self.chunk);
+        }
+        for &c in &self.cuts {
+            if c > self.pos && c < end {
+                end = c;
+            }
+        }
+        end
+    }
+}
+impl Read for ChunkedBuf<'_> {
+    fn read(&mut self, buf: &mut [u8]) -> std::io::Result<usize> {
+        let end = self.end().min(self.pos + buf.len());
+        let n = end - self.pos;
+        buf[..n].copy_from_slice(&self.data[self.pos..end]);
+        self.pos = end;
+        Ok(n)
+    }
+}
+impl BufRead for ChunkedBuf<'_> {
+    fn fill_buf(&mut self) -> std::io::Result<&[u8]> {
+        if self.pos >= self.data.len() {
+            self.eof_polls += 1;
+            if self.eof_polls > 1_000_000 {
+                panic!("stream reader polls the source forever at end of data");
+            }
+        }
+        Ok(&self.data[self.pos..self.end()])
+    }
+    fn consume(&mut self, n: usize) {
+        self.pos += n;
+    }
+}
+
+type FrameP = (u32, u8, u32, usize); // rate, channels, bps, length in PCM frames
+const MENU: [FrameP; 12] = [(44100, 1, 16, 16), (8000, 2, 8, 17), (12345, 3, 24, 1), (100010, 1, 12, 16), (96000, 2, 32, 17), (22050, 8, 20, 16), (254000, 1, 16, 40), (65534, 2, 16, 1), (655340, 1, 24, 17), (192000, 2, 24, 16), (1, 1, 8, 16), (48000, 3, 16, 40)];
+
+fn frame_pcm(p: &FrameP, salt: usize) -> Vec<i32> {
+    let mut v = ident_pcm(p.1, p.2, p.3);
+    if let Some(x) = v.first_mut() {
+        *x = (*x).wrapping_add(salt as i32 % 3); // make equal-parameter frames distinguishable
+        let m = 1i64 << (p.2 - 1);
+        *x = (*x as i64).clamp(-m, m - 1) as i32;
+    }
+    v
+}
+
+/// write the frames; returns (bytes, frame byte ranges)
+fn write_frames(seq: &[usize]) -> Result<(Vec<u8>, Vec<(usize, usize)>), String> {
+    guarded(|| -> Result<(Vec<u8>, Vec<(usize, usize)>), String> {
+        let mut out = Vec::new();
+        let mut ranges = Vec::new();
+        let mut w = FlacStreamWriter::new(&mut out, Options::default());
+        let mut lens = Vec::new();
+        for (i, &k) in seq.iter().enumerate() {
+            let p = MENU[k];
+            w.write(p.0, p.1, p.2, &frame_pcm(&p, i)).map_err(|e| format!("err:{e:?}"))?;
+            lens.push(0);
+        }
+        drop(w);
+        // frame extents from the independent decoder (also oracle (i))
+        let mut pos = 0;
+        for _ in seq {
+            let f = refdec::decode_frame(&out, pos, None).map_err(|r| format!("own-header:{}:{}", r.code, r.msg))?;
+            ranges.push((pos, f.len));
+            pos += f.len;
+        }
+        if pos != out.len() {
+            return Err(format!("own-header:trailing:{} of {} bytes consumed", pos, out.len()));
+        }
+        Ok((out, ranges))
+    })
+    .map_err(|p| format!("panic:{p}"))?
+}
+
+#[derive(Debug, PartialEq, Clone)]
+struct Got {
+    samples: Vec<i32>,
+    rate: u32,
+    ch: u8,
+    bps: u32,
+}
+
+/// read until end of data; returns frames and the number of errors seen before the final EOF
+fn read_all(data: &[u8], cuts: &[usize], chunk: usize) -> Result<(Vec<Got>, usize), String> {
+    guarded(|| {
+        let mut r = FlacStreamReader::new(ChunkedBuf::new(data, cuts.to_vec(), chunk));
+        let mut got = Vec::new();
+        let mut errors = 0usize;
+        loop {
+            match r.read() {
+                Ok(f) => got.push(Got { samples: f.samples.to_vec(), rate: f.sample_rate, ch: f.channels, bps: f.bits_per_sample }),
+                Err(flac_codec::Error::Io(e)) if e.kind() == std::io::ErrorKind::UnexpectedEof => break,
+                Err(_) => errors += 1,
+            }
+            if got.len() + errors > data.len() + 4 {
+                panic!("stream reader does not reach end of data");
+            }
+        }
+        (got, errors)
+    })
+}
+
+fn expect(seq: &[usize]) -> Vec<Got> {
+    seq.iter().enumerate().map(|(i, &k)| { let p = MENU[k]; Got { samples: frame_pcm(&p, i), rate: p.0, ch: p.1, bps: p.2 } }).collect()
+}
+
+fn garbage_menu(real: &[u8]) -> Vec<(&'static str, Vec<u8>, bool)> {
+    // (name, bytes, contains a sync pattern)
+    let mut fake = vec![0xFF, 0xF8, 0x69, 0x08, 0x00, 0x0F];
+    let c = refdec::crc8(&fake);
+    fake.push(c);
+    fake.extend([0x12, 0x34, 0x56]);
+    vec![
+        ("00", vec![0x00], false),
+        ("FF", vec![0xFF], false),
+        ("FFFF", vec![0xFF, 0xFF], false),
+        ("FFF8", vec![0xFF, 0xF8], true),
+        ("FFF9", vec![0xFF, 0xF9], true),
+        ("fake-header", fake, true),
+        ("frame-prefix-5", real[..5.min(real.len())].to_vec(), true),
+        ("frame-prefix-9", real[..9.min(real.len())].to_vec(), true),
+        ("syncfree-37", (0..37u8).map(|i| i.wrapping_mul(7) | 1).map(|b| if b == 0xFF { 0xFD } else { b }).collect(), false),
+    ]
+}
+
+fn is_subsequence(got: &[Got], want: &[Got]) -> bool {
+    let mut j = 0;
+    for g in got {
+        while j < want.len() && &want[j] != g {
+            j += 1;
+        }
+        if j == want.len() {
+            return false;
+        }
+        j += 1;
+    }
+    true
+}
+
+fn check_stream(acc: &mut Acc, data: &[u8], want: &[Got], clean: bool, cuts: &[usize], chunk: usize, origin: &Value) {
+    acc.executions += 1;
+    acc.transitions += want.len() as u64 + 1;
+    let case = || json!({"kind":"raw-stream","data":hex(data),"cuts":cuts,"chunk":chunk,"clean":clean,"origin":origin});
+    match read_all(data, cuts, chunk) {
+        Err(p) => {
+            acc.outcome("panic");
+            acc.violation(format!("C16|panic@{}", crate::core::panic_loc(&p)), format!("FlacStreamReader: {p} [{origin}]"), case());
+        }
+        Ok((got, errors)) => {
+            if !is_subsequence(&got, want) {
+                acc.outcome("fabricated");
+                acc.violation("C16|fabricated-or-reordered-frame".to_string(), format!("reader returned {} frame(s) that are not a subsequence of the {} written ones (cuts {cuts:?}, chunk {chunk}) [{origin}]", got.len(), want.len()), case());
+            } else if clean && (got.len() != want.len() || errors > 0) {
+                acc.outcome("lost");
+                acc.violation("C16|sync-free-garbage-costs-a-frame".to_string(), format!("only {} of {} frames returned, {errors} error(s) before end of data, although no inserted bytes contain a sync pattern (cuts {cuts:?}, chunk {chunk}) [{origin}]", got.len(), want.len()), case());
+            } else {
+                acc.outcome(format!("{}:{}of{}:err{}", if clean { "clean" } else { "synclike" }, got.len(), want.len(), errors.min(3)));
+            }
+        }
+    }
+}
+
+pub fn run(ctx: &Ctx, acc: &mut Acc) {
+    // ---- (A) all clean sequences
+    let n = MENU.len();
+    let mut seqs: Vec<Vec<usize>> = Vec::new();
+    for a in 0..n {
+        seqs.push(vec![a]);
+        for b in 0..n {
+            seqs.push(vec![a, b]);
+            for c in 0..n {
+                seqs.push(vec![a, b, c]);
+            }
+        }
+    }
+    for seq in &seqs {
+        if !ctx.mine() {
+            continue;
+        }
+        acc.states += 1;
+        let origin = json!({"frames": seq});
+        match write_frames(seq) {
+            Err(e) => {
+                let clause = if e.starts_with("own-header") { "frame-not-decodable-from-own-header" } else { "write-fails" };
+                acc.violation(format!("C16|{clause}|{}", crate::codec::err_class(&e)), format!("FlacStreamWriter on {seq:?}: {e}"), json!({"kind":"raw-write","frames":seq}));
+            }
+            Ok((data, _)) => {
+                let want = expect(seq);
+                check_stream(acc, &data, &want, true, &[], 0, &origin);
+                check_stream(acc, &data, &want, true, &[], 1, &origin);
+                if seq.len() <= 2 || ctx.thorough() {
+                    for c in 1..data.len() {
+                        check_stream(acc, &data, &want, true, &[c], 0, &origin);
+                    }
+                }
+            }
+        }
+    }
+    // non-subset classes must be refused at write
+    if ctx.shard == 0 {
+        for (rate, bps) in [(700001u32, 16u32), (1048575, 16), (655351, 16), (65537, 16), (44100, 13), (44100, 1), (44100, 31), (44100, 4), (1 << 20, 16), (44100, 33), (44100, 0)] {
+            acc.states += 1;
+            acc.executions += 1;
+            let r = guarded(|| {
+                let mut out = Vec::new();
+                let mut w = FlacStreamWriter::new(&mut out, Options::default());
+                let pcm = vec![0i32; 16];
+                w.write(rate, 1, bps, &pcm).map(|_| out.len())
+            });
+            match r {
+                Ok(Err(_)) => acc.outcome("non-subset:refused"),
+                Ok(Ok(len)) => {
+                    // accepted: then it must at least be decodable from its own header (else it is a fabricated promise)
+                    acc.outcome("non-subset:ACCEPTED");
+                    acc.violation("C16|non-subset-parameters-accepted".to_string(), format!("write(rate {rate}, 1 ch, {bps} bit) accepted ({len} bytes) although the frame header cannot carry these parameters"), json!({"kind":"raw-nonsubset","rate":rate,"bps":bps}));
+                }
+                Err(p) => acc.violation(format!("C16|panic@{}", crate::core::panic_loc(&p)), format!("write(rate {rate}, {bps} bit) panics: {p}"), json!({"kind":"raw-nonsubset","rate":rate,"bps":bps})),
+            }
+        }
+    }
+    // ---- (B) garbage placements × segmentations
+    let base_seqs: [[usize; 3]; 6] = [[0, 1, 2], [4, 0, 4], [2, 2, 2], [5, 3, 7], [10, 9, 0], [8, 6, 11]];
+    for seq in base_seqs {
+        let (data, ranges) = match write_frames(&seq) {
+            Ok(x) => x,
+            Err(_) => continue, // reported in (A)
+        };
+        let want = expect(&seq);
+        let gm = garbage_menu(&data[ranges[1].0..ranges[1].0 + ranges[1].1]);
+        // placements: list of (gap 0..=3, garbage index), gaps non-decreasing
+        let slots: Vec<(usize, usize)> = (0..4).flat_map(|g| (0..gm.len()).map(move |s| (g, s))).collect();
+        let mut placements: Vec<Vec<(usize, usize)>> = vec![vec![]];
+        for a in 0..slots.len() {
+            placements.push(vec![slots[a]]);
+            for b in a..slots.len() {
+                if slots[b].0 >= slots[a].0 {
+                    placements.push(vec![slots[a], slots[b]]);
+                    if ctx.thorough() {
+                        for c in b..slots.len() {
+                            placements.push(vec![slots[a], slots[b], slots[c]]);
+                        }
+                    }
+                }
+            }
+        }
+        for pl in placements {
+            if !ctx.mine() {
+                continue;
+            }
+            acc.states += 1;
+            let mut stream = Vec::new();
+            let mut clean = true;
+            for gap in 0..4 {
+                for (g, s) in &pl {
+                    if *g == gap {
+                        stream.extend_from_slice(&gm[*s].1);
+                        clean &= !gm[*s].2;
+                    }
+                }
+                if gap < 3 {
+                    let (o, l) = ranges[gap];
+                    stream.extend_from_slice(&data[o..o + l]);
+                }
+            }
+            // two sync-free strings can still meet to form a sync pattern (…FF + F8…): recompute on the inserted runs
+            let origin = json!({"frames": seq, "garbage": pl.iter().map(|(g, s)| json!([g, gm[*s].0])).collect::<Vec<_>>()});
+            check_stream(acc, &stream, &want, clean, &[], 0, &origin);
+            check_stream(acc, &stream, &want, clean, &[], 1, &origin);
+            if pl.len() <= 2 {
+                for c in 1..stream.len() {
+                    check_stream(acc, &stream, &want, clean, &[c], 0, &origin);
+                    if ctx.thorough() && pl.len() <= 1 {
+                        for d in c + 1..stream.len() {
+                            check_stream(acc, &stream, &want, clean, &[c, d], 0, &origin);
+                        }
+                    }
+                }
+            }
+        }
+    }
+    acc.sample(json!({"frames":[0,1,2],"garbage":[[1,"FF"],[2,"fake-header"]],"cuts":[57]}));
+}
+
+pub fn replay(v: &Value) -> Option<(bool, String)> {
+    match v["kind"].as_str()? {
+        "raw-stream" => {
+            let data = crate::core::unhex(v["data"].as_str()?);
+            let cuts: Vec<usize> = v["cuts"].as_array()?.iter().map(|x| x.as_u64().unwrap_or(0) as usize).collect();
+            let chunk = v["chunk"].as_u64()? as usize;
+            let seq: Vec<usize> = v["origin"]["frames"].as_array()?.iter().map(|x| x.as_u64().unwrap_or(0) as usize).collect();
+            let want = expect(&seq);
+            let clean = v["clean"].as_bool()?;
+            match read_all(&data, &cuts, chunk) {
+                Err(p) => Some((true, p)),
+                Ok((got, errors)) => {
+                    let bad = !is_subsequence(&got, &want) || (clean && (got.len() != want.len() || errors > 0));
+                    Some((bad, format!("{} of {} frames, {errors} errors, subsequence={}", got.len(), want.len(), is_subsequence(&got, &want))))
+                }
+            }
+        }
+        "raw-write" => {
+            let seq: Vec<usize> = v["frames"].as_array()?.iter().map(|x| x.as_u64().unwrap_or(0) as usize).collect();
+            let r = write_frames(&seq);
+            Some((r.is_err(), format!("{:?}", r.map(|x| x.0.len()))))
+        }
+        "raw-nonsubset" => {
+            let (rate, bps) = (v["rate"].as_u64()? as u32, v["bps"].as_u64()? as u32);
+            let r = guarded(|| {
+                let mut out = Vec::new();
+                let mut w = FlacStreamWriter::new(&mut out, Options::default());
+                w.write(rate, 1, bps, &[0i32; 16]).is_ok()
+            });
+            Some((!matches!(r, Ok(false)), format!("{r:?}")))
+        }
+        _ => None,
+    }
+}
